@@ -328,7 +328,9 @@ def option_jobs(rng, d, sc, f, names, trios, one, ph, feat):
             opts.append("--merge-reads")
         if rng.random() < 0.3:
             opts.append("--only-snvs")
-        if rng.random() < 0.5:
+        if alg != "whatshap":
+            opts += sample_args(some_samples(1))    # hapchat / heuristic only work on one sample at a time
+        elif rng.random() < 0.5:
             opts += sample_args(some_samples())
         if rng.random() < 0.4:
             opts += ["--chromosome", rng.choice(chroms)]
@@ -336,7 +338,7 @@ def option_jobs(rng, d, sc, f, names, trios, one, ph, feat):
             opts.append("--distrust-genotypes")
             if rng.random() < 0.5:
                 opts.append("--include-homozygous")
-        if alg != "hapchat" and (rng.random() < 0.5 or k == 0):
+        if alg == "whatshap" and (rng.random() < 0.5 or k == 0):
             opts += ["--ped", f["ped"]]
             opts += [["--genmap", f["genmap"]], ["--no-genetic-haplotyping"], [], ["--use-ped-samples"]][
                 0 if k == 0 else rng.randrange(4)]
@@ -346,10 +348,19 @@ def option_jobs(rng, d, sc, f, names, trios, one, ph, feat):
                                                                "{out}/readlist.tsv", f["unphased"], f["bam"]],
                         {"vcf": ("out." + ext, V), "read-list": ("readlist.tsv", T)},
                         feat=dict(feat, options=" ".join(opts), out_ext=ext)))
-    # hapchat, many exact repetitions (its output was seen to differ between identical runs about once in 60)
-    jobs.append(Job("phase-hapchat-repeat", "phase", ["--algorithm", "hapchat", "--tag", "HP"] + R +
-                    ["-o", "{out}/out.vcf", f["unphased"], f["bam"]], {"vcf": ("out.vcf", V)},
-                    feat=dict(feat, options="--algorithm hapchat --tag HP", repeats=8)))
+    # hapchat / heuristic on ONE sample (where they work): many exact repetitions, since hapchat's output was seen to
+    # differ between identical runs about once in 60-300 (heap over-read in make_super_reads)
+    for alg, rep in (("hapchat", 8), ("heuristic", 2)):
+        for sx in rng.sample(names, 2):
+            jobs.append(Job(f"phase-{alg}-single-{len(jobs)}", "phase", ["--algorithm", alg, "--sample", sx, "--tag",
+                                                                        rng.choice(["PS", "HP"])] + R +
+                            ["-o", "{out}/out.vcf", "--output-read-list", "{out}/readlist.tsv", f["unphased"], f["bam"]],
+                            {"vcf": ("out.vcf", V), "read-list": ("readlist.tsv", T)},
+                            feat=dict(feat, nsamples=1, options=f"--algorithm {alg} --sample", repeats=rep)))
+    # the known broken corner (sample-id assertion on multi-sample input): exercises the identical-failure path
+    jobs.append(Job("phase-hapchat-multisample", "phase", ["--algorithm", "hapchat"] + R + ["-o", "{out}/out.vcf", f["unphased"],
+                                                                                           f["bam"]],
+                    {"vcf": ("out.vcf", V)}, feat=dict(feat, options="--algorithm hapchat (all samples)")))
     s1 = rng.choice(names)
     jobs.append(Job("phase-ignore-read-groups", "phase", ["--ignore-read-groups", "--sample", s1] + R +
                     ["-o", "{out}/out.vcf", f["unphased"], f["bam"]], {"vcf": ("out.vcf", V)},
